@@ -165,8 +165,15 @@ func handleZADD(params internal.HandlerFuncParams) ([]byte, error) {
 		return []byte(fmt.Sprintf(":%d\r\n", count)), nil
 	}
 
-	// Key does not exist.
-	set := NewSortedSet(members)
+	// Key does not exist: apply the command to an empty sorted set so that the flags are honoured
+	// (XX adds nothing), and only create the key when something was added.
+	set := NewSortedSet([]MemberParam{})
+	if _, err = set.AddOrUpdate(members, updatePolicy, comparison, changed, incr); err != nil {
+		return nil, err
+	}
+	if set.Cardinality() == 0 {
+		return []byte(":0\r\n"), nil
+	}
 	if err = params.SetValues(params.Context, map[string]interface{}{key: set}); err != nil {
 		return nil, err
 	}
